@@ -231,6 +231,10 @@ func snapshotIsFresh(c *Ctx, r *Report, rule string, owner string) {
 							if id := callID(&y.Call); !(id.Pkg == "bytes" && strings.HasPrefix(id.Name, "NewBuffer")) {
 								bad = "a buffer obtained from " + id.String() + " (shared with whoever gets it next)"
 							}
+						case *ssa.FieldAddr:
+							if fld := structField(y.X.Type(), y.Field); fld != nil {
+								bad = "a buffer kept in field " + fieldLabel(fld) + " (overwritten by the next snapshot while the log store still serves the previous one from its cache)"
+							}
 						default:
 							if fld := fieldOfValue(bo); fld != nil {
 								bad = "a buffer kept in field " + fieldLabel(fld)
@@ -986,11 +990,43 @@ func publishedVertexWrites(c *Ctx, r *Report, rule string) {
 			})
 		}
 	}
+	// alias fields: struct fields of other types that are assigned a stored vertex's metadata / vector as it is (the
+	// search result item carries vertex.Metadata(), not a copy)
+	alias := map[*types.Var]*types.Var{}
+	for _, f := range fns {
+		eachInstr(f, func(i ssa.Instruction) {
+			st, ok := i.(*ssa.Store)
+			if !ok {
+				return
+			}
+			dst := fieldOfAddr(st.Addr)
+			if dst == nil || dst == fMeta || dst == fVec {
+				return
+			}
+			for _, o := range origins(st.Val, originOpt{}) {
+				if fld := fieldOfValueDeep(o); fld == fMeta || fld == fVec {
+					alias[dst] = fld
+				}
+				if cl, isC := o.(*ssa.Call); isC && cl.Call.StaticCallee() != nil && recvTypeName(cl.Call.StaticCallee()) == "hnswVertex" {
+					for _, rt := range returnsOf(cl.Call.StaticCallee()) {
+						for _, res := range rt.Results {
+							if fld := fieldOfValueDeep(res); fld == fMeta || fld == fVec {
+								alias[dst] = fld
+							}
+						}
+					}
+				}
+			}
+		})
+	}
 	var isStored func(v ssa.Value, depth int) *types.Var
 	isStored = func(v ssa.Value, depth int) *types.Var {
 		for _, o := range origins(v, originOpt{}) {
 			if fld := fieldOfValueDeep(o); fld == fMeta || fld == fVec {
 				return fld
+			}
+			if fld := fieldOfValueDeep(o); fld != nil && alias[fld] != nil {
+				return alias[fld]
 			}
 			if p, ok := o.(*ssa.Parameter); ok && depth > 0 {
 				f := p.Parent()
